@@ -21,13 +21,13 @@ from ..scen import REQ, RESP
 LEVEL = 'exploration'
 RULE = ('grid (exhaustive every run): HEADER_TABLE_SIZE {0,4096,65536} x ENABLE_PUSH {0,1} x MAX_CONCURRENT_STREAMS {absent,0,1,100} x '
         'INITIAL_WINDOW_SIZE {0,1,65535,2^31-1} x MAX_FRAME_SIZE {2^14,32768,2^24-1} x MAX_HEADER_LIST_SIZE {absent,0,65536} x '
-        'ENABLE_CONNECT_PROTOCOL {0,1}; per combination: settings-view checks on the server before the client preface is read, '
+        'ENABLE_CONNECT_PROTOCOL {0,1}, plus combinations of arbitrary in-range values (600 quick); per combination: settings-view checks on the server before the client preface is read, '
         'stream-1 behaviour on both sides (refused body attempts on the live connections, late WINDOW_UPDATE / RST_STREAM for the finished '
         'stream, last_stream_id of a server GOAWAY), send windows afterwards, next stream ids, and a continuation (requests with bodies, responses, trailers, push '
         'with stream 1 as parent, pings) whose events are compared on both ends; thorough repeats combinations with random '
         'continuation orders; non-trivial = all phases judged; distinct = the combination')
 MINIMA = {'settings_views_compared': 1500, 'stream1_behaviour_checked': 1500, 'continuations_checked': 1000,
-          'push_on_stream1_checked': 300, 'late_frames_for_stream_1_checked': 3000,
+          'push_on_stream1_checked': 300, 'late_frames_for_stream_1_checked': 3000, 'arbitrary_value_combinations': 400,
           'refused_body_attempts_on_live_connection': 1500}
 EXHAUSTIVE = {}
 
@@ -37,11 +37,18 @@ KNOWN = [1, 2, 3, 4, 5, 6, 8]
 
 
 def n_cases(tier):
-    return len(GRID) * (1 if tier == 'quick' else 40)
+    return len(GRID) * (1 if tier == 'quick' else 40) + (600 if tier == 'quick' else 60000)
 
 
 def run_case(idx, rng, tier, rep):
     combo = GRID[idx % len(GRID)]
+    if idx >= len(GRID) * (1 if tier == 'quick' else 40):
+        # arbitrary values inside each setting's range: every octet pattern of the settings payload, and so every character of
+        # the base64url alphabet in the header value
+        combo = (rng.choice([rng.randrange(0, 65537), 4030, 62 << 6]), rng.choice([0, 1]), rng.choice([None, rng.randrange(0, 1000), 62]),
+                 rng.choice([rng.randrange(0, 2 ** 31), 65534, 2 ** 31 - 1]), rng.choice([rng.randrange(2 ** 14, 2 ** 24), 0xFBEFBE]),
+                 rng.choice([None, rng.randrange(0, 2 ** 20)]), rng.choice([0, 1]))
+        rep.count('arbitrary_value_combinations')
     hts, push, mcs, iws, mfs, mhls, ecp = combo
     init = {1: hts, 2: push, 4: iws, 5: mfs, 8: ecp}
     if mcs is not None:
